@@ -3,7 +3,10 @@
 A case is an operation history on the process-wide switch:
   {'init': v, 'ops': [[0, v] setenv | [1] unsetenv | [2] enable_pedantic() | [3] disable_pedantic()
                       | [4, d, t, u] decorate a FRESH target of kind t with decorator d (u: inner decorator of for_all_methods)
-                      | [5, i] call the i-th decorated object]}
+                      | [5, i] call the i-th decorated object
+                      | [6, d, u] create a decorator object and keep it: for_all_methods(inner u), pedantic(), pedantic_require_docstring(),
+                        or a reference to one of the four class decorators
+                      | [7, k, t] apply the k-th kept decorator object to a FRESH target of kind t]}
   v: 0 "0", 1 "1", 2 "2", 3 "", 4 "true", 5 unset.
 The worker process itself was started (and `pedantic` imported) with the variable unset / "0" / "1" (driver: run_impl env).
 
@@ -337,7 +340,28 @@ def run_case(case, targets):
     import pedantic
     from pedantic import (pedantic as p_pedantic, pedantic_require_docstring, pedantic_class, pedantic_class_require_docstring,
                           trace_class, timer_class, for_all_methods, trace, timer, enable_pedantic, disable_pedantic)
+    def make_deco(d, u, direct=False):
+        """the decorator OBJECT: for_all_methods(inner); pedantic() / pedantic_require_docstring() called without a function
+        (they return the decorator); for the four class decorators the function object itself"""
+        journal = None
+        if d == 6:
+            if u == 0:
+                journal = Journal()
+                inner = custom_decorator(journal)
+            else:
+                inner = {1: p_pedantic, 2: trace, 3: timer}[u]
+            return for_all_methods(inner), journal
+        if direct and d in (0, 1):            # @pedantic / @pedantic_require_docstring directly above the function
+            return (p_pedantic if d == 0 else pedantic_require_docstring), None
+        if d == 0:
+            return (p_pedantic() if u % 2 == 0 else p_pedantic(require_docstring=False)), None
+        if d == 1:
+            return pedantic_require_docstring(), None
+        return [pedantic_class, pedantic_class_require_docstring, trace_class, timer_class][d - 2], None
+
     set_env(case['init'])
+    decos = []
+    create_reads = []
     objs = []
     obs = []
     details = {}
@@ -352,21 +376,18 @@ def run_case(case, targets):
             enable_pedantic(); obs.append(0)
         elif code == 3:
             disable_pedantic(); obs.append(0)
-        elif code == 4:
-            d, t, u = op[1], op[2] if len(op) > 2 else 0, op[3] if len(op) > 3 else 0
+        elif code in (4, 7):
+            if code == 4:                           # create the decorator object and apply it in one go
+                d, t, u = op[1], op[2] if len(op) > 2 else 0, op[3] if len(op) > 3 else 0
+                deco, journal = make_deco(d, u, direct=True)
+            else:                                   # apply a decorator object that was created earlier
+                if op[1] >= len(decos):
+                    obs.append(0)
+                    continue
+                d, u, deco, journal = decos[op[1]]
+                t = op[2] if len(op) > 2 else 0
             target = targets.make_fn(t) if d in (0, 1) else targets.make_cls(t)
             before = snapshot(target)
-            journal = None
-            if d == 6:
-                if u == 0:
-                    journal = Journal()
-                    inner = custom_decorator(journal)
-                else:
-                    inner = {1: p_pedantic, 2: trace, 3: timer}[u]
-                deco = for_all_methods(inner)
-            else:
-                deco = [p_pedantic, pedantic_require_docstring, pedantic_class, pedantic_class_require_docstring,
-                        trace_class, timer_class][d]
             a = attempt(lambda: deco(target))
             if a[0] != 'ret':
                 obs.append(3)                       # like the model: nothing is added to the list of decorated objects
@@ -377,6 +398,18 @@ def run_case(case, targets):
             identical = res is target and same_snapshot(before, after) and a[2] == ''
             obs.append(1 if identical else 2)
             objs.append({'d': d, 't': t, 'u': u, 'res': res, 'after': after, 'journal': journal, 'target': target})
+        elif code == 6:
+            d, u = op[1], op[2] if len(op) > 2 else 0
+            n0 = READS['n']
+            a = attempt(lambda: make_deco(d, u))
+            if READS['n'] != n0:
+                create_reads.append(k)
+            if a[0] != 'ret':
+                obs.append(3)
+                details[str(k)] = list(a[:2])
+                continue
+            decos.append((d, u) + a[1])
+            obs.append(0)
         elif code == 5:
             i = op[1]
             if i >= len(objs):
@@ -391,7 +424,7 @@ def run_case(case, targets):
                     details[str(k)] = det
         else:
             obs.append(8)
-    return {'obs': obs, 'details': details, 'call_reads': call_reads}
+    return {'obs': obs, 'details': details, 'call_reads': call_reads, 'create_reads': create_reads}
 
 
 def main():
